@@ -12,7 +12,7 @@ CFG = dict(
     classify=classify,
     imports=["From Verif.Common Require Import Labels.", "From Verif.C07 Require Import Model Spec."],
     checker="check_case",
-    n=dict(quick=320, thorough=12000),
+    n=dict(quick=320, thorough=8000),
     shard=40,
     rule="five streams on the real code: (idx, 40%) histories of 10-35 calls of UpdateLabels/DeleteLabels/UpdateParentLabels/"
          "DeleteParentLabels/UpdateSelector/DeleteSelector on the real InheritIndex over 2-4 items, 1-3 parents, 2-4 selector ids, "
@@ -34,7 +34,13 @@ CFG = dict(
                  "Selector.Equal (hash of canonical text) is modelled by structural equality of parser ASTs; the theorems need only "
                  "that Equal implies same evaluation on every label map (C06)",
                  "Go map/set iteration order is the oracle `ord`; theorems hold for every permutation-valued oracle",
-                 "parentData pointers held by items are modelled by parent ids (theorem c07_parents_live shows a referenced parent is never dropped)"],
+                 "parentData pointers held by items are modelled by parent ids (theorem c07_parents_live shows a referenced parent is never dropped)",
+                 "AndNode/OrNode range over Go maps keyed by label; every key is handled independently, the model folds in list "
+                 "order and restriction maps are compared as maps (c07_filing_order_free covers the one order-sensitive consumer, "
+                 "findMostRestrictedLabel; iterEndpointCandidates is modelled and proved for every order)",
+                 "LabelNameStrategy's count field is modelled by its value (number of stored (item,label) entries); "
+                 "estimateParentEndpointScanCount is modelled exactly for scans of at most 10 parents (the theorem holds for any estimate)",
+                 "a panic of the real code on a valid history is a failing case (CCrash/CPanic)"],
 )
 
 def run(ctx):
@@ -43,11 +49,41 @@ def run(ctx):
         cfg["shard"] = 300
     return vlib.standard_flow(ctx, cfg)
 
+def replay(ctx, path):
+    """./check C07 --replay <file>: regenerate the recorded case (the driver is deterministic in seed and index), run it on
+    the real code of $VERIF_REPO again, and evaluate model and oracle in Coq."""
+    import json
+    obj = json.load(open(path))
+    case = obj.get("case") or obj.get("first_case") or {}
+    smp = case.get("sample", {})
+    if "seed" not in smp or "index" not in smp:
+        print(json.dumps(obj, indent=1)); return 0
+    ok, log = vlib.coq_build(["theories/Common/CaseLib.vo"] + vlib.prop_targets("C07"))
+    if not ok:
+        print(log[-3000:]); return 1
+    exe, blog = vlib.go_build(ctx)
+    if exe is None:
+        print(blog[-3000:]); return 1
+    lines = vlib.run_driver(ctx, exe, ["-n", smp["index"] + 1, "-seed", smp["seed"], "-only", smp["index"]])
+    failing, _ = vlib.coq_eval_cases(ctx, CFG["imports"], CFG["checker"], [l["coq"] for l in lines], shard=10)
+    rc = 0
+    for i, l in enumerate(lines):
+        bad = [f for f in failing if f[0] == i]
+        print(json.dumps(l["sample"], indent=1, sort_keys=True))
+        print("tags:", l["tags"])
+        print("same input as recorded:", l.get("key") == case.get("key"))
+        print("model agrees with implementation:", not bad or bad[0][1])
+        print("specification oracle accepts implementation output:", not bad or bad[0][2])
+        if bad and not bad[0][2]:
+            rc = 1
+    return rc
+
 MANIFEST = dict(
     category="proof",
-    text="Theorems over executable models of InheritIndex, Selector.LabelRestrictions, LabelRestrictionIndex and "
-         "LabelNameValueIndex for every history and every map-iteration order (index match set = direct evaluation on effective "
-         "labels; start/stop callbacks alternate; restrictions are implied by a true evaluation; candidate scans are supersets), "
+    text="Theorems over executable models of InheritIndex, Selector.LabelRestrictions, LabelRestrictionIndex, "
+         "LabelNameValueIndex and SelectorAndNamedPortIndex.iterEndpointCandidates for every history and every map-iteration order (index match set = direct evaluation on effective "
+         "labels; start/stop callbacks alternate; restrictions are implied by a true evaluation; candidate scans of the restriction "
+         "index, the name/value index and iterEndpointCandidates are supersets of the true matches), "
          "plus a correspondence run of the models and specification oracles against the real Go code.",
     note="Trusted: Coq kernel; hand-written models tied to the code only by the correspondence run; Go driver and shim.",
 )
